@@ -309,4 +309,728 @@ Proof.
       intros x Hx. apply T3. rewrite Et2. apply T1. exact Hx.
 Qed.
 
+
+(* ---- Storage.Save and what it leaves of the persist facts ------------------------------------------------ *)
+
+Lemma log_get_app a b i :
+  log_get (a ++ b) i = match log_get a i with Some v => Some v | None => log_get b i end.
+Proof.
+  induction a as [|x a IH]; cbn [app log_get]; [reflexivity|].
+  destruct (e_idx x =? i); [reflexivity | exact IH].
+Qed.
+
+Lemma log_get_filter_lt log f i :
+  i < f -> log_get (filter (fun x => e_idx x <? f) log) i = log_get log i.
+Proof.
+  intro H. induction log as [|x log IH]; cbn [filter log_get]; [reflexivity|].
+  destruct (e_idx x <? f) eqn:E; cbn [log_get].
+  - destruct (e_idx x =? i); [reflexivity | exact IH].
+  - destruct (e_idx x =? i) eqn:E2; [|exact IH]. apply N.eqb_eq in E2. apply N.ltb_ge in E. lia.
+Qed.
+
+Lemma log_get_none_gt b i : (forall x, In x b -> i < e_idx x) -> log_get b i = None.
+Proof.
+  induction b as [|x b IH]; intro H; cbn [log_get]; [reflexivity|].
+  destruct (e_idx x =? i) eqn:E.
+  - apply N.eqb_eq in E. specialize (H x (or_introl eq_refl)). lia.
+  - apply IH. intros y Hy. apply H. right. exact Hy.
+Qed.
+
+Lemma log_get_put log ents i :
+  (forall x, In x ents -> i < e_idx x) -> log_get (log_put log ents) i = log_get log i.
+Proof.
+  intro H. unfold log_put. destruct ents as [|e0 r]; [reflexivity|].
+  rewrite log_get_app, log_get_filter_lt by (apply H; left; reflexivity).
+  destruct (log_get log i); [reflexivity|]. apply log_get_none_gt. exact H.
+Qed.
+
+Lemma applied_ok_stable d hs ents snap e :
+  (forall h, hs = Some h -> hs_commit (u_hs d) <= hs_commit h) ->
+  (forall x, In x ents -> hs_commit (u_hs d) < e_idx x) ->
+  applied_ok d e = true -> applied_ok (dur_save d hs ents snap) e = true.
+Proof.
+  intros Hh He H. unfold applied_ok in *. apply andb_true_iff in H. destruct H as [Hc Hl].
+  apply N.leb_le in Hc. unfold dur_save. cbn [u_hs u_log].
+  apply andb_true_iff. split.
+  - apply N.leb_le. destruct hs as [h|]; [specialize (Hh h eq_refl); lia | exact Hc].
+  - rewrite log_get_put; [exact Hl|]. intros x Hx. specialize (He x Hx). lia.
+Qed.
+
+Definition dur_after (s : node) (rd : ready) : dur :=
+  dur_save (dur_of s) (rd_hs rd) (rd_ents rd) (snap_meta (rd_snap rd)).
+
+Lemma exec_save_facts hs ents snap s :
+  live s ->
+  let s' := exec (OSave hs ents snap) s in
+  live s' /\ dur_of s' = dur_save (dur_of s) hs ents (snap_meta snap)
+  /\ g_pos s' = g_pos s /\ v_applied s' = v_applied s /\ v_queue s' = v_queue s
+  /\ v_applying s' = v_applying s /\ v_submitted s' = v_submitted s
+  /\ applied_tr (n_tr s') = applied_tr (n_tr s)
+  /\ (forall i t c, snap = Some (i, t, c) -> d_snap s' = i).
+Proof.
+  intro L. cbn zeta. destruct (exec_save_live hs ents snap s L) as [(-> & -> & -> & E)|E]; rewrite E.
+  - unfold dur_save, dur_of. cbn [snap_meta log_put u_log u_hs u_snap].
+    repeat split; try reflexivity; try apply L. intros; discriminate.
+  - unfold save_body, dur_save, dur_of. destruct snap as [[[i t] c]|]; cbn zeta; nsimpl;
+      rewrite applied_tr_app; cbn [applied_tr flat_map applied_of_event snap_meta u_log u_hs u_snap]; rewrite app_nil_r;
+      (repeat split; try reflexivity; try apply L).
+    + intros i0 t0 c0 H. injection H as -> _ _. reflexivity.
+    + intros; discriminate.
+Qed.
+
+(* ---- operations that only touch bookkeeping ------------------------------------------------------------------- *)
+
+Definition BINV_fields (s s' : node) : Prop :=
+  g_pos s' = g_pos s /\ v_applied s' = v_applied s /\ v_queue s' = v_queue s
+  /\ v_applying s' = v_applying s /\ dur_of s' = dur_of s.
+
+Lemma BINV_fields_inv s s' : BINV_fields s s' -> BINV s -> BINV s'.
+Proof.
+  unfold BINV_fields, BINV. intros (E1 & E2 & E3 & E4 & E5). rewrite E1, E2, E3, E4, E5. tauto.
+Qed.
+
+Lemma same_core_BINV_fields s s' : same_core s s' -> BINV_fields s s'.
+Proof.
+  unfold same_core, BINV_fields, dur_of.
+  intros (Edur & Elog & Ehs & Esnap & Esnapc & Eapp & Esmi & Esmh & Eup & Efail & Eapplying & Evapp & Eq & Epos & Etr).
+  rewrite Elog, Ehs, Esnap. repeat split; assumption.
+Qed.
+
+Lemma exec_send_facts ms s :
+  live s ->
+  let s' := exec (OSend ms) s in
+  live s' /\ BINV_fields s s' /\ applied_tr (n_tr s') = applied_tr (n_tr s) /\ v_submitted s' = v_submitted s.
+Proof.
+  intro L. cbn zeta. rewrite (exec_live _ _ L). destruct ms as [|m ms].
+  - unfold BINV_fields. repeat split; try reflexivity; apply L.
+  - unfold BINV_fields, dur_of. nsimpl. rewrite applied_tr_app. cbn [applied_tr flat_map applied_of_event]. rewrite app_nil_r.
+    repeat split; try reflexivity; apply L.
+Qed.
+
+Lemma exec_track_facts ents s :
+  live s -> let s' := exec (OTrack ents) s in same_core s s'.
+Proof. intro L. cbn zeta. rewrite (exec_live _ _ L). apply track_core. Qed.
+
+Lemma exec_refresh_facts l s :
+  live s -> let s' := exec (ORefresh l) s in same_core s s'.
+Proof. intro L. cbn zeta. rewrite (exec_live _ _ L). apply refreshStatus_core. Qed.
+
+Lemma exec_accept_facts upto s :
+  live s ->
+  let s' := exec (OAccept upto) s in
+  live s' /\ g_pos s' = g_pos s /\ v_applied s' = v_applied s /\ v_queue s' = v_queue s
+  /\ v_applying s' = N.max (v_applying s) upto /\ dur_of s' = dur_of s
+  /\ applied_tr (n_tr s') = applied_tr (n_tr s).
+Proof.
+  intro L. cbn zeta. rewrite (exec_live _ _ L). unfold dur_of, live. nsimpl.
+  repeat split; try reflexivity; apply L.
+Qed.
+
+Lemma lastApplied_app l1 l2 d : lastApplied (l1 ++ l2) d = lastApplied l2 (lastApplied l1 d).
+Proof.
+  destruct l2 as [|x l2]; [rewrite app_nil_r; reflexivity|].
+  assert (Hne : x :: l2 <> []) by congruence.
+  destruct (exists_last Hne) as (l' & e & ->). rewrite app_assoc, !lastApplied_snoc. reflexivity.
+Qed.
+
+Lemma applied_after_concat q a : applied_after q a = lastApplied (concat (map t_ents q)) a.
+Proof.
+  unfold applied_after. revert a. induction q as [|t q IH]; intro a; cbn [fold_left map concat]; [reflexivity|].
+  rewrite IH, lastApplied_app. reflexivity.
+Qed.
+
+(* ---- the tail of the synchronous path, pipeline idle ---------------------------------------------------------- *)
+
+Lemma sync_tail_phase rd s a n :
+  live s -> INV s -> v_queue s = [] -> g_pos s = a -> v_applied s = a -> v_applying s = a ->
+  rd_committed rd = centries a n ->
+  (forall e, In e (rd_committed rd) -> is_normal e = true -> applied_ok (dur_of s) e = true) ->
+  (forall i t c, rd_snap rd = Some (i, t, c) ->
+     n = 0%nat /\ a < i /\ snap_good i c /\ (forall e, In e c -> GS e) /\ d_snap s = i) ->
+  valid_seq (syncTail rd) s
+  /\ let s' := exec_all (syncTail rd) s in live s' /\ BINV s'.
+Proof.
+  intros L I Eq Ep Ea Eap Ec Hp Hs. unfold syncTail. rewrite Ec.
+  destruct (rd_snap rd) as [[[i t] c]|] eqn:Esn.
+  - (* a snapshot from the leader: Restore, nothing to apply *)
+    destruct (Hs i t c eq_refl) as (-> & Hai & Hg & Hgs & Hd).
+    rewrite centries_0. cbn [applyCommittedEntries applyCommittedEntries_from flushBatch map app filter lastApplied last].
+    assert (V1 : mop_valid (ORestore i c) s).
+    { cbn [RaftDriver_inv.mop_valid]. split; [exact Hg|]. split; [intro Z; destruct Hg; lia|].
+      split; [lia|]. intros e He. right. apply Hgs, He. }
+    destruct (INV_exec clog clog_idx GS TrackHyp _ _ I L V1) as [I1 L1].
+    set (s1 := exec (ORestore i c) s) in *.
+    assert (E1 : s1 = emit (EvRestore i) (set_sm i c i s)) by (unfold s1; rewrite (exec_live _ _ L); reflexivity).
+    assert (F1 : g_pos s1 = i /\ sm_idx s1 = i /\ v_applied s1 = a /\ v_queue s1 = [] /\ v_applying s1 = a)
+      by (rewrite E1; nsimpl; repeat split; assumption).
+    destruct F1 as (P1 & S1 & A1 & Q1 & Ap1).
+    assert (V2 : mop_valid (OMarkApplied i) s1).
+    { cbn [RaftDriver_inv.mop_valid]. split; [apply (clean_refl clog clog_idx); lia | intros _; lia]. }
+    destruct (exec_mark_facts i s1 L1 (i_durable _ _ _ I1)) as (L2 & P2 & A2 & T2 & K2); [lia | lia |].
+    cbn zeta in *. set (s2 := exec (OMarkApplied i) s1) in *.
+    destruct (INV_exec clog clog_idx GS TrackHyp _ _ I1 L1 V2) as [I2 _]. fold s2 in I2.
+    destruct K2 as (Kq & Kap & Kd & Ks & Kdu).
+    assert (E3 : exec (OMarkApplied 0) s2 = s2) by (apply exec_mark_noop; [exact L2 | lia]).
+    destruct (exec_accept_facts i s2 L2) as (L4 & P4 & A4 & Q4 & Ap4 & D4 & T4). cbn zeta in *.
+    set (s4 := exec (OAccept i) s2) in *.
+    pose proof (exec_refresh_facts (rd_leader rd) s4 L4) as C5. cbn zeta in C5.
+    set (s5 := exec (ORefresh (rd_leader rd)) s4) in *.
+    pose proof (same_core_live _ _ C5 L4) as L5.
+    destruct (exec_resolve_facts [] s5 L5) as (C6 & _). cbn zeta in C6.
+    set (s6 := exec (OResolve []) s5) in *.
+    split.
+    + cbn [RaftDriver_inv.valid_seq]. split; [intros _; exact V1|]. fold s1.
+      split; [intros _; exact V2|]. fold s2. rewrite E3.
+      split; [intros _; cbn [RaftDriver_inv.mop_valid]; split; [apply (clean_refl clog clog_idx); lia | intros; lia]|].
+      fold s4. split; [intros _; exact Logic.I|]. fold s5.
+      split; [intros _; exact Logic.I|]. split; [intros _; intros e []|]. exact Logic.I.
+    + cbn zeta. rewrite !exec_all_cons, exec_all_nil. fold s1. fold s2. rewrite E3. fold s4. fold s5. fold s6.
+      split; [eapply same_core_live; [exact C6 | exact L5]|].
+      apply (BINV_fields_inv s5); [apply same_core_BINV_fields, C6|].
+      apply (BINV_fields_inv s4); [apply same_core_BINV_fields, C5|].
+      unfold BINV. rewrite P4, A4, Q4, Ap4, P2, A2, Kap, Ap1, P1.
+      split; [lia|]. split.
+      * exists 0%nat. rewrite Kq, Q1. cbn [map concat]. rewrite centries_0. split; [reflexivity | lia].
+      * rewrite Kq, Q1. split; intros t0 [].
+  - (* no snapshot *)
+    cbn [app].
+    destruct n as [|n'].
+    + (* nothing committed *)
+      rewrite centries_0. cbn [applyCommittedEntries applyCommittedEntries_from flushBatch map app filter lastApplied last].
+      assert (E1 : exec (OMarkApplied 0) s = s) by (apply exec_mark_noop; [exact L | lia]).
+      destruct (exec_accept_facts 0 s L) as (L2 & P2 & A2 & Q2 & Ap2 & D2 & T2). cbn zeta in *.
+      set (s2 := exec (OAccept 0) s) in *.
+      pose proof (exec_refresh_facts (rd_leader rd) s2 L2) as C3. cbn zeta in C3.
+      set (s3 := exec (ORefresh (rd_leader rd)) s2) in *.
+      pose proof (same_core_live _ _ C3 L2) as L3.
+      destruct (exec_resolve_facts [] s3 L3) as (C4 & _). cbn zeta in C4.
+      set (s4 := exec (OResolve []) s3) in *.
+      split.
+      * cbn [RaftDriver_inv.valid_seq].
+        split; [intros _; cbn [RaftDriver_inv.mop_valid]; split; [apply (clean_refl clog clog_idx); lia | intros; lia]|].
+        rewrite E1. fold s2. split; [intros _; exact Logic.I|]. fold s3.
+        split; [intros _; exact Logic.I|]. split; [intros _; intros e []|]. exact Logic.I.
+      * cbn zeta. rewrite !exec_all_cons, exec_all_nil, E1. fold s2. fold s3. fold s4.
+        split; [eapply same_core_live; [exact C4 | exact L3]|].
+        apply (BINV_fields_inv s3); [apply same_core_BINV_fields, C4|].
+        apply (BINV_fields_inv s2); [apply same_core_BINV_fields, C3|].
+        unfold BINV. rewrite P2, A2, Q2, Ap2, Ep, Ea, Eap, Eq.
+        split; [reflexivity|]. split.
+        -- exists 0%nat. cbn [map concat]. rewrite centries_0. split; [reflexivity | lia].
+        -- split; intros t0 [].
+    + (* committed entries a+1 .. a+n *)
+      set (k := S n') in *.
+      assert (Hk : (0 < k)%nat) by (unfold k; lia).
+      rewrite !(lastApplied_centries clog clog_idx a k) by exact Hk.
+      destruct (calls_mark_phase a k s L I Hk) as (V1 & L1 & P1 & A1 & K1 & T1).
+      { lia. } { apply (clean_refl clog clog_idx). lia. }
+      { intros e He Hn. apply Hp; [rewrite Ec; exact He | exact Hn]. }
+      cbn zeta in *.
+      set (ops1 := map OCall (applyCommittedEntries (centries a k)) ++ [OMarkApplied (a + N.of_nat k)]) in *.
+      set (s1 := exec_all ops1 s) in *.
+      destruct K1 as (Kq & Kap & Kd & Ks & Kdu).
+      destruct (exec_accept_facts (a + N.of_nat k) s1 L1) as (L2 & P2 & A2 & Q2 & Ap2 & D2 & T2). cbn zeta in *.
+      set (s2 := exec (OAccept (a + N.of_nat k)) s1) in *.
+      pose proof (exec_refresh_facts (rd_leader rd) s2 L2) as C3. cbn zeta in C3.
+      set (s3 := exec (ORefresh (rd_leader rd)) s2) in *.
+      pose proof (same_core_live _ _ C3 L2) as L3.
+      destruct (same_core_pos _ _ C3) as (_ & _ & T3).
+      assert (Vr : mop_valid (OResolve (filter is_normal (centries a k))) s3).
+      { apply (resolve_valid_after _ a k s s3 eq_refl). rewrite T3, T2. exact T1. }
+      destruct (exec_resolve_facts (filter is_normal (centries a k)) s3 L3) as (C4 & _). cbn zeta in C4.
+      set (s4 := exec (OResolve (filter is_normal (centries a k))) s3) in *.
+      replace (map OCall (applyCommittedEntries (centries a k)) ++
+               [OMarkApplied (a + N.of_nat k); OAccept (a + N.of_nat k); ORefresh (rd_leader rd);
+                OResolve (filter is_normal (centries a k))])
+        with (ops1 ++ [OAccept (a + N.of_nat k); ORefresh (rd_leader rd); OResolve (filter is_normal (centries a k))])
+        by (unfold ops1; rewrite <- app_assoc; reflexivity).
+      split.
+      * apply valid_seq_app. split; [exact V1|]. fold s1. cbn [RaftDriver_inv.valid_seq].
+        split; [intros _; exact Logic.I|]. fold s2. split; [intros _; exact Logic.I|]. fold s3.
+        split; [intros _; exact Vr | exact Logic.I].
+      * cbn zeta. rewrite exec_all_app. fold s1. rewrite !exec_all_cons, exec_all_nil. fold s2. fold s3. fold s4.
+        split; [eapply same_core_live; [exact C4 | exact L3]|].
+        apply (BINV_fields_inv s3); [apply same_core_BINV_fields, C4|].
+        apply (BINV_fields_inv s2); [apply same_core_BINV_fields, C3|].
+        unfold BINV. rewrite P2, A2, Q2, Ap2, P1, A1, Kq, Kap, Eq, Eap.
+        split; [reflexivity|]. split.
+        -- exists 0%nat. cbn [map concat]. rewrite centries_0. split; [reflexivity | lia].
+        -- split; intros t0 [].
+Qed.
+
+
+(* ---- what the library guarantees about a Ready (SMS and the Ready contract) ------------------------------------ *)
+
+Definition ready_ok (s : node) (rd : ready) : Prop :=
+  (* the committed entries are the next ones of the committed log, above the library's cursor *)
+  (exists n, rd_committed rd = centries (v_applying s) n)
+  (* a snapshot comes alone, lies beyond the cursor, and holds what some replica's state machine held *)
+  /\ (forall i t c, rd_snap rd = Some (i, t, c) ->
+         rd_committed rd = [] /\ v_applying s < i /\ snap_good i c /\ (forall e, In e c -> GS e))
+  (* committed entries are never rewritten, the commit index never decreases *)
+  /\ save_stable s (rd_hs rd) (rd_ents rd)
+  (* committed entries are in the log this Ready leaves in stable storage, at or below its commit index *)
+  /\ (forall e, In e (rd_committed rd) -> is_normal e = true -> applied_ok (dur_after s rd) e = true)
+  (* messages may be sent once this Ready's entries and hard state are stable *)
+  /\ forallb (msg_ok (dur_after s rd)) (rd_msgs rd) = true
+  /\ TrackHyp s (rd_ents rd).
+
+Lemma existsb_conf_false_sync rd :
+  readyRequiresSynchronousApply (match rd_snap rd with Some _ => true | None => false end) (rd_committed rd) = false ->
+  rd_snap rd = None.
+Proof. unfold readyRequiresSynchronousApply. destruct (rd_snap rd); [discriminate | reflexivity]. Qed.
+
+Lemma ready_phase rd busy s :
+  live s -> INV s -> BINV s -> ready_ok s rd ->
+  valid_seq (processReady s rd busy) s
+  /\ let s' := exec_all (processReady s rd busy) s in live s' /\ BINV s'.
+Proof.
+  intros L I B (Rc & Rs & Rst & Rp & Rm & Rt).
+  destruct Rc as (n & Rc).
+  unfold processReady, persistReadyDurable.
+  set (sync := readyRequiresSynchronousApply (match rd_snap rd with Some _ => true | None => false end) (rd_committed rd)).
+  (* Storage.Save *)
+  assert (V0 : mop_valid (OSave (rd_hs rd) (rd_ents rd) (rd_snap rd)) s).
+  { cbn [RaftDriver_inv.mop_valid]. split; [exact Rst|]. destruct (rd_snap rd) as [[[i t] c]|] eqn:E; [|exact Logic.I].
+    destruct (Rs i t c eq_refl) as (_ & _ & G & K). split; assumption. }
+  destruct (INV_exec clog clog_idx GS TrackHyp _ _ I L V0) as [I1 _].
+  destruct (exec_save_facts (rd_hs rd) (rd_ents rd) (rd_snap rd) s L) as (L1 & D1 & P1 & A1 & Q1 & Ap1 & S1 & T1 & Sn1).
+  cbn zeta in *. set (s1 := exec (OSave (rd_hs rd) (rd_ents rd) (rd_snap rd)) s) in *.
+  fold (dur_after s rd) in D1.
+  assert (B1 : BINV s1).
+  { destruct B as (Ba & Bq & Bne & Bp). unfold BINV. rewrite P1, A1, Q1, Ap1.
+    split; [exact Ba|]. split; [exact Bq|]. split; [exact Bne|].
+    intros t Ht e He Hn. rewrite D1. unfold dur_after. destruct Rst as [Rh Re].
+    apply applied_ok_stable; [exact Rh | exact Re | apply (Bp t Ht e He Hn)]. }
+  cbn [app].
+  destruct sync eqn:Esync.
+  - (* synchronous: waitApplyIdle, track, send, then the tail *)
+    destruct (drain_phase (v_queue s) s1 L1 I1 Q1 B1) as (V2 & L2 & Q2 & P2 & A2 & Ap2 & D2 & S2 & T2).
+    cbn zeta in *. set (s2 := exec_all (drain (v_queue s)) s1) in *.
+    pose proof (INV_exec_all clog clog_idx GS TrackHyp _ _ I1 V2) as I2. fold s2 in I2.
+    assert (V3 : mop_valid (OTrack (rd_ents rd)) s2).
+    { cbn [RaftDriver_inv.mop_valid]. apply (TrackHyp_submitted s); [congruence | exact Rt]. }
+    pose proof (exec_track_facts (rd_ents rd) s2 L2) as C3. cbn zeta in C3.
+    set (s3 := exec (OTrack (rd_ents rd)) s2) in *.
+    pose proof (same_core_live _ _ C3 L2) as L3.
+    pose proof (INV_same_core clog GS _ _ C3 I2) as I3.
+    destruct (same_core_BINV_fields _ _ C3) as (P3 & A3 & Q3 & Ap3 & D3).
+    assert (V4 : mop_valid (OSend (rd_msgs rd)) s3).
+    { cbn [RaftDriver_inv.mop_valid]. rewrite D3, D2, D1. exact Rm. }
+    destruct (INV_exec clog clog_idx GS TrackHyp _ _ I3 L3 V4) as [I4 _].
+    destruct (exec_send_facts (rd_msgs rd) s3 L3) as (L4 & (P4 & A4 & Q4 & Ap4 & D4) & T4 & S4). cbn zeta in *.
+    set (s4 := exec (OSend (rd_msgs rd)) s3) in *.
+    destruct (sync_tail_phase rd s4 (v_applying s) n L4 I4) as (V5 & L5 & B5).
+    { congruence. } { rewrite P4, P3, P2. congruence. } { rewrite A4, A3, A2. congruence. } { congruence. }
+    { exact Rc. }
+    { intros e He Hn. rewrite D4, D3, D2, D1. apply Rp; assumption. }
+    { intros i t c E. destruct (Rs i t c E) as (Ec & Hi & G & K).
+      split; [|split; [exact Hi|split; [exact G|split; [exact K|]]]].
+      - rewrite Rc in Ec. apply (f_equal (@length _)) in Ec. rewrite centries_length in Ec. exact Ec.
+      - assert (Hd : u_snap (dur_of s4) = u_snap (dur_of s1)) by congruence.
+        unfold dur_of in Hd. cbn [u_snap] in Hd. rewrite Hd. apply (Sn1 i t c E). }
+    split.
+    + cbn [RaftDriver_inv.valid_seq]. split; [intros _; exact V0|]. fold s1.
+      apply valid_seq_app. split; [exact V2|]. fold s2. cbn [app RaftDriver_inv.valid_seq].
+      split; [intros _; exact V3|]. fold s3. split; [intros _; exact V4|]. fold s4. exact V5.
+    + cbn zeta. rewrite exec_all_cons. fold s1. rewrite exec_all_app. fold s2.
+      cbn [app]. rewrite !exec_all_cons. fold s3. fold s4. split; assumption.
+  - (* asynchronous *)
+    pose proof (existsb_conf_false_sync rd Esync) as Esn.
+    assert (V3 : mop_valid (OTrack (rd_ents rd)) s1).
+    { cbn [RaftDriver_inv.mop_valid]. apply (TrackHyp_submitted s); [congruence | exact Rt]. }
+    pose proof (exec_track_facts (rd_ents rd) s1 L1) as C3. cbn zeta in C3.
+    set (s3 := exec (OTrack (rd_ents rd)) s1) in *.
+    pose proof (same_core_live _ _ C3 L1) as L3.
+    pose proof (INV_same_core clog GS _ _ C3 I1) as I3.
+    destruct (same_core_BINV_fields _ _ C3) as (P3 & A3 & Q3 & Ap3 & D3).
+    assert (V4 : mop_valid (OSend (rd_msgs rd)) s3).
+    { cbn [RaftDriver_inv.mop_valid]. rewrite D3, D1. exact Rm. }
+    destruct (INV_exec clog clog_idx GS TrackHyp _ _ I3 L3 V4) as [I4 _].
+    destruct (exec_send_facts (rd_msgs rd) s3 L3) as (L4 & F4 & T4 & S4). cbn zeta in *.
+    set (s4 := exec (OSend (rd_msgs rd)) s3) in *.
+    assert (B4 : BINV s4).
+    { apply (BINV_fields_inv s3); [exact F4|]. apply (BINV_fields_inv s1); [|exact B1].
+      unfold BINV_fields. repeat split; assumption. }
+    destruct F4 as (P4 & A4 & Q4 & Ap4 & D4).
+    assert (Eq4 : v_queue s4 = v_queue s) by congruence.
+    assert (Ed4 : dur_of s4 = dur_after s rd) by congruence.
+    assert (Tail : valid_seq (processReadyAsyncNormal s rd busy) s4
+                   /\ (live (exec_all (processReadyAsyncNormal s rd busy) s4)
+                       /\ BINV (exec_all (processReadyAsyncNormal s rd busy) s4))).
+    { unfold processReadyAsyncNormal. destruct (rd_committed rd) as [|e0 r0] eqn:Ecm.
+      - (* nothing committed: Advance *)
+        destruct (exec_accept_facts 0 s4 L4) as (L5 & P5 & A5 & Q5 & Ap5 & D5 & T5). cbn zeta in *.
+        set (s5 := exec (OAccept 0) s4) in *.
+        pose proof (exec_refresh_facts (rd_leader rd) s5 L5) as C6. cbn zeta in C6.
+        split.
+        + cbn [RaftDriver_inv.valid_seq]. repeat split; intros _; exact Logic.I.
+        + rewrite !exec_all_cons, exec_all_nil. fold s5.
+          split; [eapply same_core_live; [exact C6 | exact L5]|].
+          apply (BINV_fields_inv s5); [apply same_core_BINV_fields, C6|].
+          apply (BINV_fields_inv s4); [|exact B4].
+          unfold BINV_fields. repeat split; try assumption. rewrite Ap5. lia.
+      - rewrite <- Ecm in *. destruct busy.
+        + (* the pipeline refuses the task: apply synchronously *)
+          unfold processReadySynchronously.
+          destruct (drain_phase (v_queue s) s4 L4 I4 Eq4 B4) as (V5 & L5 & Q5 & P5 & A5 & Ap5 & D5 & S5 & T5).
+          cbn zeta in *. set (s5 := exec_all (drain (v_queue s)) s4) in *.
+          pose proof (INV_exec_all clog clog_idx GS TrackHyp _ _ I4 V5) as I5. fold s5 in I5.
+          destruct (sync_tail_phase rd s5 (v_applying s) n L5 I5) as (V6 & L6 & B6).
+          { exact Q5. } { congruence. } { congruence. } { congruence. } { exact Rc. }
+          { intros e He Hn. rewrite D5, Ed4. apply Rp; assumption. }
+          { intros i t c E. rewrite Esn in E. discriminate. }
+          split.
+          * apply valid_seq_app. split; [exact V5 | exact V6].
+          * rewrite exec_all_app. fold s5. split; assumption.
+        + (* the task goes to the pipeline; Advance *)
+          set (tk := mkTask (rd_committed rd) (v_applied s)).
+          assert (E5 : exec (OEnqueue tk) s4 =
+                       set_volatile (v_up s4) (v_failed s4) (v_applying s4) (v_applied s4) (v_queue s4 ++ [tk]) s4)
+            by (rewrite (exec_live _ _ L4); reflexivity).
+          set (s5 := exec (OEnqueue tk) s4) in *.
+          assert (L5 : live s5) by (rewrite E5; destruct L4; split; nsimpl; assumption).
+          assert (Hn0 : (0 < n)%nat).
+          { destruct n; [|lia]. rewrite Rc, centries_0 in Ecm. discriminate. }
+          destruct (exec_accept_facts (lastApplied (rd_committed rd) 0) s5 L5) as (L6 & P6 & A6 & Q6 & Ap6 & D6 & T6).
+          cbn zeta in *. set (s6 := exec (OAccept (lastApplied (rd_committed rd) 0)) s5) in *.
+          pose proof (exec_refresh_facts (rd_leader rd) s6 L6) as C7. cbn zeta in C7.
+          split.
+          * cbn [RaftDriver_inv.valid_seq]. repeat split; intros _; exact Logic.I.
+          * rewrite !exec_all_cons, exec_all_nil. fold s5. fold s6.
+            split; [eapply same_core_live; [exact C7 | exact L6]|].
+            apply (BINV_fields_inv s6); [apply same_core_BINV_fields, C7|].
+            destruct B4 as (Ba & (m & Bq & Bap) & Bne & Bp).
+            unfold BINV. rewrite P6, A6, Q6, Ap6, D6. rewrite E5. unfold dur_of. nsimpl.
+            fold (dur_of s4).
+            split; [exact Ba|]. split; [|split].
+            -- exists (m + n)%nat. rewrite map_app, concat_app. cbn [map concat t_ents tk]. rewrite app_nil_r.
+               rewrite Bq, Rc, (centries_app clog clog_idx).
+               assert (Ev : v_applying s = g_pos s4 + N.of_nat m) by congruence.
+               rewrite <- Ev. split; [reflexivity|].
+               rewrite (lastApplied_centries clog clog_idx _ n 0 Hn0). lia.
+            -- intros t Ht. apply in_app_or in Ht. destruct Ht as [Ht|[<-|[]]]; [apply Bne, Ht|].
+               cbn [t_ents tk]. rewrite Ecm. congruence.
+            -- intros t Ht e He Hn. apply in_app_or in Ht. destruct Ht as [Ht|[<-|[]]]; [apply (Bp t Ht e He Hn)|].
+               cbn [t_ents tk] in He. rewrite Ed4. apply Rp; assumption. }
+    destruct Tail as (V5 & L5 & B5).
+    split.
+    + cbn [RaftDriver_inv.valid_seq]. split; [intros _; exact V0|]. fold s1.
+      split; [intros _; exact V3|]. fold s3. split; [intros _; exact V4|]. fold s4. exact V5.
+    + cbn zeta. rewrite !exec_all_cons. fold s1. fold s3. fold s4. split; assumption.
+Qed.
+
+
+(* ---- the other steps ------------------------------------------------------------------------------------------ *)
+
+Lemma exec_all_dead ops s : ~ live s -> exec_all ops s = s.
+Proof.
+  intro H. induction ops as [|o r IH]; [reflexivity|]. rewrite exec_all_cons, exec_dead by exact H. exact IH.
+Qed.
+
+Lemma task_phase t q s :
+  live s -> INV s -> BINV s -> v_queue s = t :: q ->
+  valid_seq (runApplyTask t) s
+  /\ let s' := exec_all (runApplyTask t) s in live s' /\ BINV s'.
+Proof.
+  intros L I (B1 & (n & Bq & Ba) & Bne & Bp) Eq. unfold runApplyTask.
+  rewrite Eq in Bq. cbn [map concat] in Bq.
+  destruct (centries_split clog clog_idx _ _ _ _ Bq) as [E1 E2].
+  set (k := length (t_ents t)) in *.
+  assert (Hk : (0 < k)%nat).
+  { specialize (Bne t). rewrite Eq in Bne. specialize (Bne (or_introl eq_refl)).
+    unfold k. destruct (t_ents t); [congruence | cbn; lia]. }
+  destruct (apply_phase (g_pos s) k (t_before t) s L I Hk (N.le_refl _)) as (V1 & L1 & P1 & A1 & K1 & T1).
+  { apply (clean_refl clog clog_idx). lia. }
+  { intros e He Hn. apply (Bp t); [rewrite Eq; left; reflexivity | rewrite E1; exact He | exact Hn]. }
+  cbn zeta in *. rewrite <- E1 in *.
+  set (s1 := exec_all (apply_ops (t_ents t) (t_before t)) s) in *.
+  destruct K1 as (Kq & Kap & Kd & Ks & Kdu).
+  set (s2 := exec ODequeue s1).
+  assert (E2q : s2 = set_volatile (v_up s1) (v_failed s1) (v_applying s1) (v_applied s1) (tl (v_queue s1)) s1).
+  { unfold s2. rewrite (exec_live _ _ L1). reflexivity. }
+  split.
+  - apply valid_seq_app. split; [exact V1|]. fold s1. cbn [RaftDriver_inv.valid_seq]. split; [intros _; exact Logic.I | exact Logic.I].
+  - cbn zeta. rewrite exec_all_app. fold s1. rewrite exec_all_cons, exec_all_nil. fold s2.
+    split; [rewrite E2q; destruct L1; split; nsimpl; assumption|].
+    rewrite E2q. unfold BINV, dur_of. nsimpl. rewrite Kq, Eq. cbn [tl].
+    split; [congruence|]. split.
+    + exists (n - k)%nat. split; [rewrite P1; exact E2|]. rewrite Kap, Ba, P1.
+      assert (k <= n)%nat.
+      { apply (f_equal (@length _)) in Bq. rewrite app_length, centries_length in Bq. unfold k. lia. }
+      lia.
+    + split.
+      * intros t' Ht'. apply Bne. rewrite Eq. right. exact Ht'.
+      * intros t' Ht' e He Hn. unfold dur_of in Kd. injection Kd as -> -> ->.
+        apply (Bp t'); [rewrite Eq; right; exact Ht' | exact He | exact Hn].
+Qed.
+
+Lemma applied_after_BINV s : BINV s -> applied_after (v_queue s) (v_applied s) = v_applying s.
+Proof.
+  intros (B1 & (n & Bq & Ba) & _). rewrite applied_after_concat, Bq, Ba, <- B1.
+  destruct n as [|n]; [rewrite centries_0; cbn [lastApplied map last]; lia|].
+  apply (lastApplied_centries clog clog_idx). lia.
+Qed.
+
+Lemma compact_phase s :
+  live s -> INV s -> BINV s ->
+  valid_seq (compactLogAt s) s
+  /\ let s' := exec_all (compactLogAt s) s in live s' /\ BINV s'.
+Proof.
+  intros L I B. unfold compactLogAt. rewrite (applied_after_BINV s B).
+  destruct (drain_phase (v_queue s) s L I eq_refl B) as (V2 & L2 & Q2 & P2 & A2 & Ap2 & D2 & S2 & T2).
+  cbn zeta in *. set (s2 := exec_all (drain (v_queue s)) s) in *.
+  pose proof (INV_exec_all clog clog_idx GS TrackHyp _ _ I V2) as I2. fold s2 in I2.
+  set (a := v_applying s) in *.
+  assert (B2 : BINV s2).
+  { unfold BINV. rewrite P2, A2, Q2, Ap2. split; [reflexivity|]. split.
+    - exists 0%nat. cbn [map concat]. rewrite centries_0. split; [reflexivity | lia].
+    - split; intros t []. }
+  destruct (a =? 0) eqn:Ea.
+  - split.
+    + apply valid_seq_app. split; [exact V2 | exact Logic.I].
+    + cbn zeta. rewrite exec_all_app. fold s2. rewrite exec_all_nil. split; assumption.
+  - apply N.eqb_neq in Ea.
+    assert (V3 : mop_valid (OCompactMark a) s2) by (cbn [RaftDriver_inv.mop_valid]; lia).
+    destruct (INV_exec clog clog_idx GS TrackHyp _ _ I2 L2 V3) as [I3 L3].
+    set (s3 := exec (OCompactMark a) s2) in *.
+    assert (E3 : s3 = emit (EvMark a) (set_d_applied a s2)).
+    { unfold s3. rewrite (exec_live _ _ L2), (i_durable _ _ _ I2). reflexivity. }
+    assert (F3 : g_pos s3 = a /\ v_applied s3 = a /\ v_queue s3 = [] /\ v_applying s3 = a)
+      by (rewrite E3; nsimpl; repeat split; assumption).
+    destruct F3 as (P3 & A3 & Q3 & Ap3).
+    assert (V4 : mop_valid (OCompactSave a) s3) by (cbn [RaftDriver_inv.mop_valid]; split; [congruence | lia]).
+    set (s4 := exec (OCompactSave a) s3).
+    assert (E4 : s4 = emit (EvSave None [] (Some (a, 0))) (set_durable_log (d_log s3) (d_hs s3) a (sm_hist s3) s3)).
+    { unfold s4. rewrite (exec_live _ _ L3). reflexivity. }
+    split.
+    + apply valid_seq_app. split; [exact V2|]. fold s2. cbn [RaftDriver_inv.valid_seq].
+      split; [intros _; exact V3|]. fold s3. split; [intros _; exact V4 | exact Logic.I].
+    + cbn zeta. rewrite exec_all_app. fold s2. rewrite !exec_all_cons, exec_all_nil. fold s3. fold s4.
+      split; [rewrite E4; destruct L3; split; nsimpl; assumption|].
+      rewrite E4. unfold BINV. nsimpl. rewrite P3, A3, Q3, Ap3. split; [reflexivity|]. split.
+      * exists 0%nat. cbn [map concat]. rewrite centries_0. split; [reflexivity | lia].
+      * split; intros t [].
+Qed.
+
+Lemma crash_INV hard s : INV s -> INV (crash hard s) /\ ~ live (crash hard s).
+Proof.
+  intro I. unfold crash. destruct (v_up s) eqn:U; cbn [negb].
+  - pose proof (failLeadershipDependent_core s) as C.
+    pose proof (INV_same_core clog GS _ _ C I) as I1.
+    set (s1 := failLeadershipDependent s) in *. destruct I1.
+    split.
+    + constructor; nsimpl; unfold RaftDriver_inv.known in *; nsimpl; try assumption; try lia.
+      * intros e He. rewrite applied_tr_app. cbn [applied_tr flat_map applied_of_event]. rewrite app_nil_r. apply i_hist_known, He.
+      * intros e He. rewrite applied_tr_app. cbn [applied_tr flat_map applied_of_event]. rewrite app_nil_r. apply i_snap_known, He.
+      * intros e He. rewrite applied_tr_app in He. cbn [applied_tr flat_map applied_of_event] in He. rewrite app_nil_r in He.
+        apply i_applied_sound, He.
+    + intros [A _]. nsimpl. discriminate.
+  - split; [exact I|]. intros [A _]. congruence.
+Qed.
+
+Lemma newSlot_SINV first s : INV s -> v_up s = false ->
+  let s' := newSlot first s in INV s' /\ live s' /\ BINV s'.
+Proof.
+  intros I U. cbn zeta. unfold newSlot. rewrite U.
+  destruct I. unfold newSlot_applied. rewrite i_durable.
+  destruct (d_snap s =? 0) eqn:Esn; cbn [negb].
+  - (* no snapshot: resume above what the state machine and the storage remember *)
+    apply N.eqb_eq in Esn. specialize (i_dapplied Esn).
+    set (start := N.max (d_applied s) (sm_idx s)).
+    split; [|split].
+    + constructor; nsimpl; unfold RaftDriver_inv.known in *; nsimpl; try assumption; try lia.
+      * apply (complete_weaken clog clog_idx _ _ (g_pos s)); [exact i_complete | unfold start; lia].
+      * intros e He. rewrite !applied_tr_app. cbn [applied_tr flat_map applied_of_event]. rewrite !app_nil_r. apply i_hist_known, He.
+      * intros e He. rewrite !applied_tr_app. cbn [applied_tr flat_map applied_of_event]. rewrite !app_nil_r. apply i_snap_known, He.
+      * intros e He. rewrite !applied_tr_app in He. cbn [applied_tr flat_map applied_of_event] in He. rewrite !app_nil_r in He.
+        apply i_applied_sound, He.
+    + split; nsimpl; reflexivity.
+    + unfold BINV. nsimpl. split; [reflexivity|]. split.
+      * exists 0%nat. cbn [map concat]. rewrite centries_0. split; [reflexivity | lia].
+      * split; intros t [].
+  - (* a stored snapshot: Restore it, resume above it *)
+    apply N.eqb_neq in Esn. destruct (i_snap Esn) as (G0 & Gs & Gsd & Gc).
+    set (s0 := emit (EvBoot first (hs_term (d_hs s)) (hs_vote (d_hs s)) (hs_commit (d_hs s)) (d_applied s) (d_snap s) (sm_idx s)) s).
+    set (s1 := set_pos (d_snap s) (set_volatile true false (d_snap s) (d_snap s) [] s0)).
+    assert (L1 : live s1) by (split; reflexivity).
+    rewrite (exec_live _ _ L1). unfold s1, s0.
+    split; [|split].
+    + constructor; nsimpl; unfold RaftDriver_inv.known in *; nsimpl; try assumption; try lia.
+      * intros e He. rewrite !applied_tr_app. cbn [applied_tr flat_map applied_of_event]. rewrite !app_nil_r. apply i_snap_known, He.
+      * intros e He. rewrite !applied_tr_app. cbn [applied_tr flat_map applied_of_event]. rewrite !app_nil_r. apply i_snap_known, He.
+      * intros e He. rewrite !applied_tr_app in He. cbn [applied_tr flat_map applied_of_event] in He. rewrite !app_nil_r in He.
+        apply i_applied_sound, He.
+    + split; nsimpl; reflexivity.
+    + unfold BINV. nsimpl. split; [reflexivity|]. split.
+      * exists 0%nat. cbn [map concat]. rewrite centries_0. split; [reflexivity | lia].
+      * split; intros t [].
+Qed.
+
+(* ---- every reachable state ------------------------------------------------------------------------------------------ *)
+
+Definition SINV (s : node) : Prop := INV s /\ (live s -> BINV s).
+
+Definition step_ok (st : step) (s : node) : Prop :=
+  match st with
+  | SReady rd _ _ => live s -> ready_ok s rd
+  | _ => True
+  end.
+
+Lemma exec_cut_SINV ops cut s :
+  INV s -> valid_seq ops s -> (live (exec_all ops s) -> BINV (exec_all ops s)) ->
+  SINV (exec_cut ops cut s).
+Proof.
+  intros I V B. unfold exec_cut. destruct cut as [k|].
+  - destruct (crash_INV true (exec_all (firstn k ops) s)) as [I' D'].
+    { apply (INV_exec_all clog clog_idx GS TrackHyp); [exact I | apply valid_seq_firstn, V]. }
+    split; [exact I' | intro L; contradiction].
+  - split; [apply (INV_exec_all clog clog_idx GS TrackHyp); assumption | exact B].
+Qed.
+
+Lemma step_SINV st s : SINV s -> step_ok st s -> SINV (step_node st s).
+Proof.
+  intros [I B] Hok. destruct st as [rd busy cut|cut|cmd acc|cut|hard|]; cbn [step_node step_ok] in *.
+  - (* SReady *)
+    destruct (v_up s) eqn:U; [|split; assumption].
+    destruct (live_dec s) as [L|D].
+    + destruct (ready_phase rd busy s L I (B L) (Hok L)) as (V & L' & B').
+      apply exec_cut_SINV; [exact I | exact V | intros _; exact B'].
+    + apply exec_cut_SINV; [exact I | apply valid_seq_dead, D|].
+      rewrite exec_all_dead by exact D. exact B.
+  - (* SApplyTask *)
+    destruct (v_queue s) as [|t q] eqn:Eq; [split; assumption|].
+    destruct (v_up s) eqn:U; [|split; assumption].
+    destruct (live_dec s) as [L|D].
+    + destruct (task_phase t q s L I (B L) Eq) as (V & L' & B').
+      apply exec_cut_SINV; [exact I | exact V | intros _; exact B'].
+    + apply exec_cut_SINV; [exact I | apply valid_seq_dead, D|].
+      rewrite exec_all_dead by exact D. exact B.
+  - (* SPropose *)
+    destruct (v_up s && negb (v_failed s)); [|split; assumption].
+    destruct acc.
+    + pose proof (same_core_set_futures (v_submitted s ++ [cmd]) (v_pending s) (v_leader s) (n_futs s) s) as C.
+      split; [eapply INV_same_core; [exact C | exact I]|].
+      intro L'. apply (BINV_fields_inv s); [apply same_core_BINV_fields, C|]. apply B.
+      unfold live in *. nsimpl. exact L'.
+    + pose proof (same_core_set_futures (v_submitted s) (v_pending s) (v_leader s) (n_futs s ++ [(cmd, FutErr)]) s) as C.
+      split; [eapply INV_same_core; [exact C | exact I]|].
+      intro L'. apply (BINV_fields_inv s); [apply same_core_BINV_fields, C|]. apply B.
+      unfold live in *. nsimpl. exact L'.
+  - (* SCompact *)
+    destruct (v_up s) eqn:U; [|split; assumption].
+    destruct (live_dec s) as [L|D].
+    + destruct (compact_phase s L I (B L)) as (V & L' & B').
+      apply exec_cut_SINV; [exact I | exact V | intros _; exact B'].
+    + apply exec_cut_SINV; [exact I | apply valid_seq_dead, D|].
+      rewrite exec_all_dead by exact D. exact B.
+  - (* SCrash *)
+    destruct (crash_INV hard s I) as [I' D']. split; [exact I' | intro; contradiction].
+  - (* SRestart *)
+    destruct (v_up s) eqn:U.
+    + unfold newSlot. rewrite U. split; assumption.
+    + destruct (newSlot_SINV false s I U) as (I' & L' & B'). split; [exact I' | intros _; exact B'].
+Qed.
+
+Fixpoint sched_ok (sched : list step) (s : node) : Prop :=
+  match sched with
+  | [] => True
+  | st :: r => step_ok st s /\ sched_ok r (step_node st s)
+  end.
+
+Definition run_from (s : node) (sched : list step) : node :=
+  fold_left (fun st x => step_node x st) sched s.
+
+Lemma run_from_SINV sched : forall s, SINV s -> sched_ok sched s -> SINV (run_from s sched).
+Proof.
+  induction sched as [|st r IH]; intros s H Hok; [exact H|].
+  cbn [sched_ok] in Hok. destruct Hok as [H1 H2]. cbn [run_from fold_left].
+  apply IH; [apply step_SINV; assumption | exact H2].
+Qed.
+
+Lemma init_INV : INV (init_node true).
+Proof.
+  unfold init_node. constructor; nsimpl; unfold RaftDriver_inv.known; nsimpl; try reflexivity; try lia.
+  - constructor.
+  - intros e [].
+  - intros i Hi. lia.
+  - intros e [].
+  - intros e [].
+  - intros e [].
+Qed.
+
+Definition start_node : node := newSlot true (init_node true).
+
+Lemma start_SINV : SINV start_node.
+Proof.
+  destruct (newSlot_SINV true (init_node true) init_INV eq_refl) as (I & L & B).
+  split; [exact I | intros _; exact B].
+Qed.
+
+Theorem run_SINV sched : sched_ok sched start_node -> SINV (run true sched).
+Proof. intro H. unfold run. apply (run_from_SINV sched start_node start_SINV H). Qed.
+
+
+(* ---- any other invariant that every valid micro-operation preserves holds in every reachable state -------------- *)
+
+Section Generic.
+
+Variable P : node -> Prop.
+Hypothesis P_exec : forall o s, INV s -> P s -> live s -> mop_valid o s -> P (exec o s).
+Hypothesis P_crash : forall hard s, INV s -> P s -> P (crash hard s).
+Hypothesis P_newSlot : forall first s, INV s -> P s -> v_up s = false -> P (newSlot first s).
+Hypothesis P_propose : forall cmd acc s, INV s -> P s -> P (step_node (SPropose cmd acc) s).
+
+Lemma P_exec_all ops : forall s, INV s -> P s -> valid_seq ops s -> P (exec_all ops s).
+Proof.
+  induction ops as [|o r IH]; intros s I H V; [exact H|].
+  cbn [RaftDriver_inv.valid_seq] in V. destruct V as [V1 V2]. rewrite exec_all_cons.
+  apply IH; [apply (INV_exec_any clog clog_idx GS TrackHyp); assumption | | exact V2].
+  destruct (live_dec s) as [L|D]; [apply P_exec; auto | rewrite exec_dead by exact D; exact H].
+Qed.
+
+Lemma P_exec_cut ops cut s : INV s -> P s -> valid_seq ops s -> P (exec_cut ops cut s).
+Proof.
+  intros I H V. unfold exec_cut. destruct cut as [k|].
+  - apply P_crash.
+    + apply (INV_exec_all clog clog_idx GS TrackHyp); [exact I | apply valid_seq_firstn, V].
+    + apply P_exec_all; [exact I | exact H | apply valid_seq_firstn, V].
+  - apply P_exec_all; assumption.
+Qed.
+
+Lemma step_P st s : SINV s -> step_ok st s -> P s -> P (step_node st s).
+Proof.
+  intros [I B] Hok H. destruct st as [rd busy cut|cut|cmd acc|cut|hard|]; cbn [step_ok] in *.
+  - cbn [step_node]. destruct (v_up s) eqn:U; [|exact H].
+    apply P_exec_cut; [exact I | exact H|].
+    destruct (live_dec s) as [L|D]; [apply (ready_phase rd busy s L I (B L) (Hok L)) | apply valid_seq_dead, D].
+  - cbn [step_node]. destruct (v_queue s) as [|t q] eqn:Eq; [exact H|].
+    destruct (v_up s) eqn:U; [|exact H].
+    apply P_exec_cut; [exact I | exact H|].
+    destruct (live_dec s) as [L|D]; [apply (task_phase t q s L I (B L) Eq) | apply valid_seq_dead, D].
+  - apply P_propose; assumption.
+  - cbn [step_node]. destruct (v_up s) eqn:U; [|exact H].
+    apply P_exec_cut; [exact I | exact H|].
+    destruct (live_dec s) as [L|D]; [apply (compact_phase s L I (B L)) | apply valid_seq_dead, D].
+  - cbn [step_node]. apply P_crash; assumption.
+  - cbn [step_node]. destruct (v_up s) eqn:U.
+    + unfold newSlot. rewrite U. exact H.
+    + apply P_newSlot; assumption.
+Qed.
+
+Lemma run_from_P sched : forall s, SINV s -> sched_ok sched s -> P s -> P (run_from s sched).
+Proof.
+  induction sched as [|st r IH]; intros s S Hok H; [exact H|].
+  cbn [sched_ok] in Hok. destruct Hok as [H1 H2]. cbn [run_from fold_left].
+  apply IH; [apply step_SINV; assumption | exact H2 | apply step_P; assumption].
+Qed.
+
+Theorem run_P sched : sched_ok sched start_node -> P (init_node true) -> P (run true sched).
+Proof.
+  intros Hok H0. unfold run. apply (run_from_P sched start_node start_SINV Hok).
+  apply P_newSlot; [exact init_INV | exact H0 | reflexivity].
+Qed.
+
+End Generic.
+
 End Steps.
